@@ -83,14 +83,18 @@ def gen_cases(tier, seed):
         cases.append(dict(kind="hist", gen=gen, dim=dim, method=["uniform", "grid"][k % 7 == 0 and dim <= 1],
                           n=n, b=b, nt=nt, bt=bt, nb=4 * per, bb=bb if dim in (1, 2) and k % 3 else None,
                           cartesian=cart, box=box, x64=bool(k % 2), key=seed * 1000 + k, cost=1.5))
+    for i, c in enumerate(cases):
+        c["rev"] = bool((i // 2) % 2)
     return cases
 
 
 def _box(case, dim):
     lo, hi = case["box"]
-    # make the box anisotropic so that axes cannot be confused
-    mins = [lo + 0.25 * i for i in range(dim)]
-    maxs = [hi + 0.5 * i for i in range(dim)]
+    # make the box anisotropic so that axes cannot be confused: bounds increasing with the axis index in half of the
+    # cases, decreasing in the other half (xmax < ymax and xmax > ymax, xmin < ymin and xmin > ymin)
+    order = list(range(dim))[::-1] if case.get("rev") else list(range(dim))
+    mins = [lo + 0.25 * i for i in order]
+    maxs = [hi + 0.5 * i for i in order]
     return mins, maxs
 
 
